@@ -317,9 +317,7 @@ class Folder(FileSystemItemABC):
 
         file.restore()
         self.files[file.uuid] = file
-
-        if file.deleted:
-            self.deleted_files.pop(file.uuid)
+        self.deleted_files.pop(file.uuid, None)
         return True
 
     def quarantine(self):
